@@ -490,6 +490,7 @@ func (g *gen) genCrash(nops int, profile string) {
 		wIngest = false
 	}
 	ncrash := 0
+	wReaders := g.r.IntN(2) == 0
 	for i := 0; i < nops; i++ {
 		x := g.r.IntN(100)
 		switch {
@@ -529,13 +530,27 @@ func (g *gen) genCrash(nops int, profile string) {
 		case x < 72 && wIngest:
 			a, b := g.prefixSpan()
 			g.add(DBOp{K: "excise", Key: a, End: b})
-		case x < 82:
+		case x < 80:
 			g.add(DBOp{K: "flush"})
-		case x < 86:
+		case x < 83:
 			a, b := g.span()
 			g.add(DBOp{K: "compact", Key: a, End: b})
+		case x < 86 && wReaders:
+			// A reader held across writes, flushes and compactions: closing it
+			// releases an old version (and with it obsolete files) at an
+			// arbitrary moment of the background work.
+			if len(g.iters) > 0 && (len(g.iters) >= 3 || g.r.IntN(2) == 0) {
+				id := pick(&g.r, g.iters)
+				g.add(DBOp{K: "iterclose", ID: id})
+				g.iters = removeInt(g.iters, id)
+			} else {
+				id := g.newID()
+				g.add(DBOp{K: "iter", ID: id, IO: &IterOpts{}})
+				g.iters = append(g.iters, id)
+			}
 		case x < 89:
 			g.add(DBOp{K: "reopen"})
+			g.iters = nil
 		case x < 95 && ncrash < 4:
 			ncrash++
 			o := DBOp{K: "crashat", N: g.r.IntN(40), Surv: g.survival()}
@@ -543,9 +558,11 @@ func (g *gen) genCrash(nops int, profile string) {
 				o.M = 1 + g.r.IntN(30) // crash again during recovery
 			}
 			g.add(o)
+			g.iters = nil
 		case x < 97 && ncrash < 4:
 			ncrash++
 			g.add(DBOp{K: "crashnow", Surv: g.survival()})
+			g.iters = nil
 		default:
 			g.add(DBOp{K: "scan"})
 		}
@@ -650,6 +667,12 @@ func (e *dbEngine) Generate(profile string, seed uint64, tier string) (*Plan, er
 		if profile == "flushdur" && g.r.IntN(2) == 0 {
 			g.cfg.DisableWAL = true
 		}
+		if profile == "flushdur" && g.r.IntN(3) == 0 {
+			// "after Flush returns without error": a third of the plans make a
+			// few syncs fail, so that some flushes fail (and are retried) and
+			// the ones that report success are held to the same promise
+			faults = g.genSyncFaults()
+		}
 		if profile == "manifest" {
 			g.cfg.MaxManifestFileSize = pick(&g.r, []int64{1, 1, 128, 1 << 20, 1 << 20})
 		}
@@ -664,6 +687,9 @@ func (e *dbEngine) Generate(profile string, seed uint64, tier string) (*Plan, er
 		n := 15 + g.r.IntN(60)
 		if tier == "thorough" {
 			n = 10 + g.r.IntN(40)
+		}
+		if (profile == "crash" || profile == "crash-sync") && g.r.IntN(3) == 0 {
+			faults = g.genDelays()
 		}
 		if profile == "crash-sync" && g.r.IntN(3) == 0 {
 			// a third of the plans: concurrent committers, crash forks only
